@@ -53,7 +53,9 @@ def cases(tier, seed):
                                                 solver=solver, total=3 if qk else 4, seed=seed))
     kpm = [dict(n=5, blocks=[1], deg="none", dtypes="rr", mode="herm", fd=[], solver="kpm", total=2, seed=seed),
            dict(n=5, blocks=[1, 1], deg="none", dtypes="rr", mode="herm", fd=[], solver="kpm", total=2, seed=seed),
-           dict(n=5, blocks=[2], deg="none", dtypes="cc", mode="herm", fd=[], solver="kpm-atol", total=2, seed=seed)]
+           dict(n=5, blocks=[2], deg="none", dtypes="cc", mode="herm", fd=[], solver="kpm-atol", total=2, seed=seed),
+           dict(n=5, blocks=[1], deg="none", dtypes="rr", mode="herm", fd=[], solver="kpm-aux", total=2, seed=seed),
+           dict(n=6, blocks=[1, 1], deg="none", dtypes="rc", mode="herm", fd=[], solver="kpm-aux", total=2, seed=seed)]
     if not qk:
         kpm += [dict(n=6, blocks=[1, 2], deg="none", dtypes="rc", mode="herm", fd=[], solver="kpm", total=3, seed=seed),
                 dict(n=6, blocks=[2], deg="pair", dtypes="rr", mode="herm", fd=[0], solver="kpm-atol", total=3, seed=seed)]
@@ -147,6 +149,10 @@ def run_case(case):
         ikw["solver_options"] = {"eigenvalue_atol": 1e-9}
     elif case["solver"] == "kpm":
         ikw["direct_solver"] = False
+        tol = 50 * 1e-5
+    elif case["solver"] == "kpm-aux":
+        ikw["direct_solver"] = False
+        ikw["solver_options"] = {"auxiliary_vectors": Rm[:, nexp : nexp + 2].copy()}
         tol = 50 * 1e-5
     elif case["solver"] == "kpm-atol":
         ikw["direct_solver"] = False
